@@ -107,8 +107,36 @@ def run(ctx) -> None:
     PRE = atom(lambda a: a == "cfg.pre_commit_hook", "cfg.pre_commit_hook")
     POST = atom(lambda a: a == "cfg.post_commit_hook", "cfg.post_commit_hook")
     A = atom(lambda a: a == "allow_dirty", "allow_dirty")
-    D = atom(lambda a: a.startswith("assert_not_dirty") and a.endswith(SEP + "dirty_files"), "dirty files")
-    DP = atom(lambda a: a.startswith("assert_not_dirty") and "dirty_pattern" in a, "dirty pattern files")
+    # the two facts about the working tree, located by what they are computed from (not by their names):
+    # D = the result of vcs_api.status(...) is non-empty; DP = its intersection with the configured paths is non-empty
+    andf = prog.function("vcs.assert_not_dirty")
+    d_names = [unparse(t) for _st, t, v in shapes.iter_assigns(andf.node)
+               if isinstance(v, ast.Call) and isinstance(v.func, ast.Attribute) and v.func.attr == "status"]
+    ctx.require(len(set(d_names)) == 1, f"assert_not_dirty: the status() result is bound {len(set(d_names))} times")
+    d_name, fp_param = d_names[0], andf.params[1]
+    def _mentions(e: ast.AST, name: str) -> bool:
+        return any(isinstance(x, ast.Name) and x.id == name for x in ast.walk(e))
+    dp_names = [unparse(t) for _st, t, v in shapes.iter_assigns(andf.node) if _mentions(v, d_name) and _mentions(v, fp_param)]
+    ctx.require(len(set(dp_names)) <= 1, f"assert_not_dirty: several values combine `{d_name}` and `{fp_param}`: {dp_names}")
+
+    def tree_atom(is_it: T.Callable[[str], bool], what: str, fallback: str) -> BF:
+        hits = [a for a in all_atoms if a.startswith("assert_not_dirty") and SEP in a and is_it(a.split(SEP, 1)[1])]
+        ctx.require(len(hits) <= 1, f"specification atom '{what}' matched {hits}")
+        if hits:
+            return BF.var(hits[0])
+        # no step depends on it: the comparison below then reports the steps whose condition should mention it
+        ctx.observe(f"no VCS step depends on '{what}'")
+        return BF.var("assert_not_dirty" + SEP + fallback)
+    D = tree_atom(lambda x: x == d_name, "dirty files", d_name)
+    def _is_dp(x: str) -> bool:
+        if dp_names and x == dp_names[0]:
+            return True
+        try:
+            e = ast.parse(x, mode="eval").body
+        except SyntaxError:
+            return False
+        return _mentions(e, d_name) and _mentions(e, fp_param)
+    DP = tree_atom(_is_dp, "dirty pattern files", dp_names[0] if dp_names else f"set({d_name}) & {fp_param}")
     OK1 = atom(lambda a: a.startswith("run" + SEP) and "returncode" in a, "pre-hook exit status 0")
     OK2 = atom(lambda a: a.startswith("run_1" + SEP) and "returncode" in a, "post-hook exit status 0")
     local = [a for a in all_atoms if a not in set().union(*(x.atoms for x in (C, V, T_, P, PRE, POST, A, D, DP, OK1, OK2)))]
